@@ -33,7 +33,7 @@ COMPONENTS = {
     'stub': ['WSGI/ASGI servers', 'event loop scheduler', 'generated middleware / hooks / responder / '
              'error handler', 'reference interpreter (oracle)'],
 }
-EXPECTED_PROBES = ('second_request', 'dependent_mode', 'independent_mode', 'unrouted', 'complete_reached', 'raise_in_response',
+EXPECTED_PROBES = ('sink_target', 'second_request', 'dependent_mode', 'independent_mode', 'unrouted', 'complete_reached', 'raise_in_response',
                    'handler_called', 'hook_raised', 'lifespan_startup_failed', 'lifespan_shutdown_failed',
                    'asgi_stack', 'wsgi_stack')
 ASSUMPTIONS = (
@@ -59,6 +59,8 @@ def sites_of(plan):
     for idx, kind in enumerate(plan['hooks']):
         s.append(('hook%d.%s' % (idx, kind), HOOK_KINDS))
     s.append(('responder', MW_KINDS))
+    if plan.get('sink'):
+        s.append(('sink', MW_KINDS))
     s.append(('handler', HANDLER_KINDS))
     return s
 
@@ -171,7 +173,9 @@ def reference(plan, asg):
                     if state['complete']:
                         break
         if not raised and not state['complete']:
-            if not plan['routed']:
+            if not plan['routed'] and plan.get('sink'):
+                raised = do('sink') == 'raise'      # a sink is a responder without a resource
+            elif not plan['routed']:
                 state['status'] = 404
                 raised = True
             else:
@@ -241,7 +245,9 @@ def run_stack(ctx):
         return Stack(plan, asgi, act, trace, resp_args, pause=pause,
                      extra_setup=setup_handlers(act))
 
-    path = '/r/x' if plan['routed'] else '/nope'
+    path = '/r/x' if plan['routed'] else ('/sink/x' if plan.get('sink') else '/nope')
+    if plan.get('sink') and not plan['routed']:
+        ctx.probe('sink_target')
     trace_b, args_b = [], []
     second = None
     if asgi and ch.draw(2, 'second_request'):
